@@ -62,6 +62,9 @@ P = {
  "C17": (True, "exploration", "generated programs with the compiler as oracle vs a reference validity predicate; disagreements re-compiled in isolation",
    "Generated enum definitions over index/discriminant/implicit/skip assignments with indices 0..=300 (incl. 255/256/257 variants), the finite attribute-conflict/union/CompactAs-shape set, each invalid program paired with a minimally different valid twin; cargo check verdict per definition (JSON span attribution) compared with the reference predicate.",
    "Rust-level validity of generated programs is the generator's responsibility (self-checked); disagreements are re-taken alone.", "§6 C17"),
+ "C20": (True, "exploration", "differential testing across feature configurations: one probe binary per configuration over a seed-determined corpus, compared with each other and with the reference model",
+   "The same generated corpus (values through every available entry point, byte strings from the C03 families) is run through a probe binary built per feature configuration (std / no_std / no_std+chain-error x all integrations / derive only; thorough: 12 configurations); crate digests must equal the reference model's in each configuration and be identical across configurations.",
+   "Probe binaries are std programs linking the crate built with each feature set; error texts are never compared.", "§6 C20"),
 }
 PENDING = {
 }
